@@ -51,6 +51,7 @@ TRUSTED = [
 ]
 
 QUIET = io.StringIO()
+ZERO = f2hex(0.0)      # area tolerance handed to the netlist reader model (hard rectangles of the producers are exactly disjoint)
 
 
 # =============================================================================== trees and the wire format
@@ -501,11 +502,14 @@ def build_alloc(inp: dict) -> Allocation:
             d.split_refinable_regions(op[1], op[2])
         a = create_initial_allocation(d, inp["zero"])
     for op in inp["ops"]:
-        if op[0] == "refine":
+        n = len(a.allocations)
+        depths = [c.depth for c in a.allocations]
+        # keep the objects small: the readers check all pairs of cells (quadratic)
+        if op[0] == "refine" and n * 2 ** op[2] <= 250:
             a = a.refine(op[1], op[2])
-        elif op[0] == "uniform":
+        elif op[0] == "uniform" and sum(2 ** (max(depths) - d) for d in depths) <= 250:
             a = a.uniform_refinement_depth()
-        elif op[0] == "griddify":
+        elif op[0] == "griddify" and n <= 40:
             a = a.griddify()
     return a
 
@@ -719,25 +723,36 @@ def run_netgen(ctx: Ctx, inp: dict, batch: Batch) -> None:
         ctx.spec_fail("netgen:text-denotes-data", inp, {}, sum(size))
     batch.add(f"F netgen {kind} {size[0]} {size[1] if len(size) > 1 else 0}", plain(d1), "netgen:" + kind, inp)
     if sum(size) <= 14 or kind == "htree" and size[0] <= 2:
-        batch.add("F nl_read " + enc(tree1), _nl_expected(s1), "nl_read", inp, "tol")
+        nl_read_request(batch, s1, inp)
     Rectangle.undefine_epsilon()
 
 
-def _nl_expected(text_or_tree) -> Any:
-    """what the real netlist reader makes of a document, in the shape the Lean op `nl_read` prints."""
+def nl_read_request(batch: "Batch", doc: str, inp: Any) -> None:
+    """queue the Lean reader model (C04/C05's `parseNetlist`) on a produced document, with the area tolerance the real
+    reader was working with, against what the real reader makes of it."""
+    exp, eps_a = _nl_expected(doc)
+    batch.add("F nl_read " + f2hex(eps_a) + " " + enc(load_text(doc)), exp, "nl_read", inp, "tol")
+
+
+def _nl_expected(text_or_tree) -> tuple[Any, float]:
+    """what the real netlist reader makes of a document, in the shape the Lean op `nl_read` prints, and the area
+    tolerance that was in force while it checked the hard modules."""
     Rectangle.undefine_epsilon()
+    eps_a = 0.0
     try:
         with contextlib.redirect_stdout(QUIET):
             n = Netlist(copy.deepcopy(text_or_tree))
+        eps_a = max(0.0, Rectangle._area_epsilon)
     except AssertionError:
-        return "err:Assert"
+        eps_a = max(0.0, Rectangle._area_epsilon)
+        return "err:Assert", eps_a
     finally:
         Rectangle.undefine_epsilon()
     mods = []
     for m in n.modules:
         rects = sorted([list(r.vector_spec)[:4] + [r.region] for r in m.rectangles], key=lambda r: [float(x) for x in r[:4]])
         mods.append([m.name, m.is_terminal, m.is_hard, m.is_fixed, [[k, float(v)] for k, v in m.area_regions.items()], rects])
-    return [mods, [[[x.name for x in e.modules], float(e.weight)] for e in n.edges]]
+    return [mods, [[[x.name for x in e.modules], float(e.weight)] for e in n.edges]], eps_a
 
 
 # =============================================================================== producer: dump_yaml_namededges
@@ -1004,11 +1019,28 @@ def run_floorset(ctx: Ctx, inp: dict, batch: Batch) -> None:
         mods_in.append([kind, inp["areas"][i], plain(before["modules"][f"M{i}"]["rectangles"])])
     req = enc([mods_in, inp["pins"], inp["terminals"], float(fp._alpha), inp["b2b"], inp["p2b"]])
     batch.add("F floorset " + req, [load_text(s1), load_text(d1)], "floorset", inp, "tol")
-    batch.add("F nl_read " + enc(load_text(s1)), _nl_expected(s1), "nl_read", inp, "tol")
-    batch.add("F nl_read " + enc(load_text(s2)), _nl_expected(s2), "nl_read", inp, "tol")
+    nl_read_request(batch, s1, inp)
+    nl_read_request(batch, s2, inp)
 
 
 # =============================================================================== producer: rect_io.get_netlist (string-built)
+@contextlib.contextmanager
+def capture_netlist_text(module):
+    """the string-built emitters hand their text straight to `Netlist(...)`; record that text (the document)."""
+    texts: list[str] = []
+    real = module.Netlist
+
+    def spy(stream):
+        if isinstance(stream, str):
+            texts.append(stream)
+        return real(stream)
+    module.Netlist = spy
+    try:
+        yield texts
+    finally:
+        module.Netlist = real
+
+
 def run_rectio(ctx: Ctx, inp: dict, batch: Batch) -> None:
     """inp is an allocation input (see gen_alloc); the emitter is run on the allocation document."""
     from tools.rect import rect_io
@@ -1028,13 +1060,14 @@ def run_rectio(ctx: Ctx, inp: dict, batch: Batch) -> None:
         doc0 = open(fn).read()
         Rectangle.undefine_epsilon()
         outs = []
-        for _ in range(2):
-            try:
-                with contextlib.redirect_stdout(QUIET):
-                    outs.append(rect_io.get_netlist(None, fn))
-            except Exception as e:
-                outs.append(e)
-            Rectangle.undefine_epsilon()
+        with capture_netlist_text(rect_io) as texts:
+            for _ in range(2):
+                try:
+                    with contextlib.redirect_stdout(QUIET):
+                        outs.append(rect_io.get_netlist(None, fn))
+                except Exception as e:
+                    outs.append(e)
+                Rectangle.undefine_epsilon()
         doc1 = open(fn).read()
     ctx.case("rect_io.get_netlist", ("rectio", doc0), True, sample={"producer": "rect_io.get_netlist", "alloc": doc0[:200]})
     if doc0 != doc1:
@@ -1063,8 +1096,10 @@ def run_rectio(ctx: Ctx, inp: dict, batch: Batch) -> None:
                     ctx.spec_fail("rectio:same-area", inp, {"module": m["name"], "read": m["area"], "source": float(area)}, sz)
                 elif abs(Fraction(m["center"][0]) - cxs) > 1e-9 * max(1, abs(cxs)) or abs(Fraction(m["center"][1]) - cys) > 1e-9 * max(1, abs(cys)):
                     ctx.spec_fail("rectio:same-centre", inp, {"module": m["name"], "read": m["center"], "source": [float(cxs), float(cys)]}, sz)
-        exp = [[m["name"], m["area"]["_"], m["center"]] for m in sm["modules"]]
-        batch.add("F rectio " + alloc_obj_wire(a), exp, "rectio", inp, "tol")
+        if len(texts) == 2 and texts[0] != texts[1]:
+            ctx.spec_fail("rectio:twice", inp, {"first": texts[0][:300], "second": texts[1][:300]}, sz)
+        batch.add("F rectio " + alloc_obj_wire(a), load_text(texts[0]), "rectio", inp, "tol")
+        nl_read_request(batch, texts[0], inp)
 
 
 # =============================================================================== producer: rect_io.solution_to_netlist
@@ -1186,7 +1221,7 @@ def run_solnet(ctx: Ctx, inp: dict, batch: Batch) -> None:
                         [[k, v] for k, v in m.area_regions.items()], m.area()])
     nets_in = [[[x.name for x in e.modules], e.weight] for e in src.edges]
     batch.add("F solnet " + enc([mods_in, nets_in]), tree1, "solnet", inp)
-    batch.add("F nl_read " + enc(tree1), _nl_expected(s1), "nl_read", inp, "tol")
+    nl_read_request(batch, s1, inp)
 
 
 # =============================================================================== producer: legalfloor Model.get_netlist
@@ -1251,13 +1286,14 @@ def run_legal(ctx: Ctx, inp: dict, batch: Batch) -> None:
         return
     before = legal_state(m)
     outs = []
-    for _ in range(2):
-        Rectangle.undefine_epsilon()
-        try:
-            with contextlib.redirect_stdout(QUIET):
-                outs.append(m.get_netlist())
-        except Exception as e:
-            outs.append(e)
+    with capture_netlist_text(lf) as texts:
+        for _ in range(2):
+            Rectangle.undefine_epsilon()
+            try:
+                with contextlib.redirect_stdout(QUIET):
+                    outs.append(m.get_netlist())
+            except Exception as e:
+                outs.append(e)
     Rectangle.undefine_epsilon()
     has_w = any(w != 1 for w, _ in before["hyper"])
     ctx.case("legalfloor.get_netlist", ("legal", repr(before)), True, sample={"producer": "legalfloor.get_netlist", "state": before})
@@ -1289,33 +1325,15 @@ def run_legal(ctx: Ctx, inp: dict, batch: Batch) -> None:
         elif want != back["nets"]:
             ctx.spec_fail("legalfloor:same-weights", inp, {"state": want, "read": back["nets"]}, sz)
     mods_in = [[before["names"][i], before["mods"][i][0], before["areas"][i], before["mods"][i][1]] for i in range(len(before["names"]))]
-    exp = _nl_expected(outs[0].write_yaml()) if False else None
-    batch.add("F legal " + enc([mods_in, before["hyper"]]), _legal_tree(before), "legal", inp)
-
-
-def _legal_tree(st: Any) -> Any:
-    """the tree the emitter's text denotes, from the implementation: re-run the string building and load it."""
-    # get_netlist() returns a Netlist, not the text; the text is rebuilt here by the same statements only to load it.
-    # (kept deliberately dumb: str() of the evaluated numbers inside flow collections)
-    mods = {}
-    for i, name in enumerate(st["names"]):
-        deg, rects = st["mods"][i]
-        d: dict[str, Any] = {}
-        if deg == 0:
-            d["area"] = load_text("v: " + str(st["areas"][i]))["v"]
-        elif deg == 1:
-            d["hard"] = True
-        else:
-            d["fixed"] = True
-        d["rectangles"] = [load_text("v: " + str(list(r)))["v"] for r in rects]
-        mods[name] = d
-    nets = []
-    for w, s in st["hyper"]:
-        e: list[Any] = [st["names"][k] for k in s]
-        if w != 1:
-            e.append(load_text("v: " + str(w))["v"])
-        nets.append(e)
-    return {"Modules": mods, "Nets": nets}
+    if len(texts) == 2 and texts[0] != texts[1]:
+        ctx.spec_fail("legalfloor:twice", inp, {"first": texts[0][:300], "second": texts[1][:300]}, sz)
+    try:
+        tree1 = load_text(texts[0])
+    except Exception as e:
+        ctx.spec_fail("legalfloor:text-is-yaml", inp, {"raised": repr(e)[:200], "document": texts[0][:300]}, sz)
+        return
+    batch.add("F legal " + enc([mods_in, before["hyper"]]), tree1, "legal", inp)
+    nl_read_request(batch, texts[0], inp)
 
 
 # =============================================================================== orchestration
@@ -1341,6 +1359,20 @@ def netgen_cases(ctx: Ctx) -> list[dict]:
                 continue
             out.append({"producer": "netgen", "kind": "grid", "size": [r, c], "cli": (r, c) == (2, 3)})
     return out
+
+
+def safe(ctx: Ctx, producer: str, inp: dict, batch: "Batch") -> None:
+    """run one case; an exception that escapes the case (implementation raising on a well-formed input at a place the
+    case did not anticipate) is a property failure of that producer, never a harness crash."""
+    try:
+        RUNNERS[producer](ctx, inp, batch)
+    except Exception as e:        # noqa: BLE001
+        import traceback
+        tb = traceback.extract_tb(e.__traceback__)
+        where = [f"{os.path.basename(fr.filename)}:{fr.lineno}:{fr.name}" for fr in tb[-4:]]
+        ctx.spec_fail(f"{producer}:operation-raised", inp, {"raised": repr(e)[:300], "where": where}, _size(inp))
+    finally:
+        Rectangle.undefine_epsilon()
 
 
 def run(ctx: Ctx) -> None:
@@ -1371,29 +1403,29 @@ def run(ctx: Ctx) -> None:
     seeds = getattr(ctx, "seed_inputs", None) or []
     for inp in seeds:
         if isinstance(inp, dict) and inp.get("producer") in RUNNERS:
-            RUNNERS[inp["producer"]](ctx, inp, batch)
+            safe(ctx, inp["producer"], inp, batch)
     for inp in netgen_cases(ctx):
-        run_netgen(ctx, inp, batch)
+        safe(ctx, "netgen", inp, batch)
     for _ in range(ctx.n(150, 3000)):
-        run_die(ctx, gen_die(rng), batch)
+        safe(ctx, "die", gen_die(rng), batch)
     for _ in range(ctx.n(150, 3000)):
         inp = gen_alloc(rng)
-        run_alloc(ctx, inp, batch)
+        safe(ctx, "alloc", inp, batch)
         if rng.random() < 0.7:
-            run_rectio(ctx, {"producer": "rectio", "alloc": inp}, batch)
+            safe(ctx, "rectio", {"producer": "rectio", "alloc": inp}, batch)
     for _ in range(ctx.n(100, 3000)):
-        run_namededges(ctx, gen_namededges(rng), batch)
+        safe(ctx, "namededges", gen_namededges(rng), batch)
     for _ in range(ctx.n(100, 3000)):
-        run_floorset(ctx, gen_floorset(rng), batch)
+        safe(ctx, "floorset", gen_floorset(rng), batch)
     for _ in range(ctx.n(120, 3000)):
-        run_solnet(ctx, gen_solnet(rng), batch)
+        safe(ctx, "solnet", gen_solnet(rng), batch)
     for _ in range(ctx.n(100, 3000)):
-        run_legal(ctx, gen_legal(rng), batch)
+        safe(ctx, "legalfloor", gen_legal(rng), batch)
     batch.flush(ctx)
 
 
 def replay(ctx: Ctx, body: dict) -> None:
     inp = body["input"]
     batch = Batch()
-    RUNNERS[inp["producer"]](ctx, inp, batch)
+    safe(ctx, inp["producer"], inp, batch)
     batch.flush(ctx)
